@@ -55,15 +55,15 @@ def aggAll (ω : Oracle) (k : AggKind) : Frame → Outcome (List (Str × FVal))
     let r ← aggAll ω k rest
     pure ((n, v) :: r)
 
-def sStat : Str := ofString "stat"
+def sStat : Str := [115, 116, 97, 116]
 
 def numericCells (ω : Oracle) (d : List Cell) : List FVal := d.filterMap ω.toFloat
 
 /-- `Describe()`: a `stat` column, then `[count, mean, min, max]` for each column having at least one
 cell `toFloat` accepts (other cells are skipped). A source column called `stat` is dropped. -/
 def describe (ω : Oracle) (f : Frame) : Frame :=
-  let stat : Col := { name := sStat, data := [.str (ofString "count"), .str (ofString "mean"),
-                                               .str (ofString "min"), .str (ofString "max")] }
+  let stat : Col := { name := sStat, data := [.str ([99, 111, 117, 110, 116]), .str ([109, 101, 97, 110]),
+                                               .str ([109, 105, 110]), .str ([109, 97, 120])] }
   f.foldl (fun acc kc =>
     match numericCells ω kc.2.data with
     | [] => acc
